@@ -14,6 +14,7 @@ Clauses(rec) ==
   \cup If(Good(i.payload) /\ i.verifier \in {"soft", "wrapSoft"} /\ o.verdict # "ignore", "C11_soft_failure_ignored_without_penalty")
   \cup If((~Good(i.payload) \/ i.verifier \in {"hard", "wrapHard", "plain", "panic"}) /\ o.verdict # "reject", "C11_other_failures_rejected")
   \cup If(Good(i.payload) /\ i.verifier = "notset" /\ o.verdict \notin {"none", "ignore", "reject"}, "C11_unverifiable_message_not_accepted")
+  \cup If(Good(i.payload) /\ i.verifier = "notset" /\ o.final \notin {"none", "ignore"}, "C11_context_expiry_before_a_verifier_is_set_does_not_penalise_the_sender")
   \cup If(o.crashed, "C11_no_crash")
 TInit == l = 1 /\ in = [payload |-> "", verifier |-> ""] /\ phase = "trace" /\ out = Obs("", FALSE, FALSE)
 TNext ==
